@@ -28,8 +28,9 @@ from .base import (
     NostrQuery,
     ValidationError,
 )
+from ..auth import Action
 from ..config import Config
-from ..errors import StorageError
+from ..errors import StorageError, AuthenticationError
 
 
 # ids: b'\x00<32 bytes of id>'
@@ -657,6 +658,9 @@ class LMDBStorage(BaseStorage):
             raise StorageError("invalid: Bad JSON")
 
         await self.validate_event(event, Config)
+        # check authentication
+        if not await self.authenticator.can_do(auth_token, Action.save.value, event):
+            raise AuthenticationError("restricted: permission denied")
 
         if not event.is_ephemeral:
             self.writer_queue.put(("add", [event]))
